@@ -84,6 +84,8 @@ Proof.
   - right. eauto.
   - left. unfold rollback. destruct (find_cp _ _); [|reflexivity].
     destruct (nth_error _ _); reflexivity.
+  - left. unfold rollback_id. destruct (find_cp_id _ _); [|reflexivity].
+    destruct (nth_error _ _); reflexivity.
 Qed.
 
 Lemma images_grow c ops s : exists l, images (run c s ops) = images s ++ l.
@@ -149,6 +151,17 @@ Proof.
         -- apply IH1. exact He.
         -- apply (IH2 img0 e); [eapply nth_error_In; eassumption | exact He].
       * intros img e Hi He. apply E1. eapply IH2; eassumption.
+    + (* rollback by id *)
+      unfold rollback_id. destruct (find_cp_id (s_cat (st s)) k) as [e0|] eqn:F;
+        [|split; [intros e He; apply E1, IH1; exact He | intros img e Hi He; apply E1; eapply IH2; eassumption]].
+      destruct (nth_error (images s) (cp_img e0)) as [img0|] eqn:Nn;
+        [|split; [intros e He; apply E1, IH1; exact He | intros img e Hi He; apply E1; eapply IH2; eassumption]].
+      cbn [st images]. split.
+      * intros e He. unfold restore in He. cbn [s_cat] in He. apply E1.
+        destruct (keep_catalogue c).
+        -- apply IH1. exact He.
+        -- apply (IH2 img0 e); [eapply nth_error_In; eassumption | exact He].
+      * intros img e Hi He. apply E1. eapply IH2; eassumption.
 Qed.
 
 (* the image a catalogue entry points to is the store at the moment its checkpoint was taken *)
@@ -191,6 +204,36 @@ Proof.
   unfold restore. cbn [s_kv s_rel s_cat]. repeat split.
   - intros k. apply reput_lookup.
   - intros ->. reflexivity.
+  - intros ->. reflexivity.
+Qed.
+
+Lemma find_cp_id_spec cat k e :
+  find_cp_id cat k = Some e -> In e cat /\ cp_img e = k.
+Proof.
+  unfold find_cp_id. intros H. apply find_some in H. destruct H as [Hin Hn].
+  rewrite in_sort_desc in Hin. apply Nat.eqb_eq in Hn. split; assumption.
+Qed.
+
+(* the same by id: rolling back to the checkpoint with id k puts back the state the k-th CHECKPOINT
+   statement of the script saw -- also when a later checkpoint carries the same name *)
+Lemma rollback_id_restores c ops k s' :
+  rollback_id c (run c init ops) k = Some s' ->
+  exists i name now,
+    nth_error ops i = Some (OCheckpoint name now)
+    /\ k = length (images (run c init (firstn i ops)))
+    /\ (forall key, aget (s_kv (st s')) key = aget (s_kv (st (run c init (firstn i ops)))) key)
+    /\ (restore_slabs c = true -> s_rel (st s') = s_rel (st (run c init (firstn i ops)))).
+Proof.
+  unfold rollback_id. set (s := run c init ops).
+  destruct (find_cp_id (s_cat (st s)) k) as [e|] eqn:F; [|discriminate].
+  destruct (nth_error (images s) (cp_img e)) as [img|] eqn:Nn; [|discriminate].
+  intros [= <-]. destruct (find_cp_id_spec _ _ _ F) as [Hin Hk].
+  destruct (inv_holds c ops) as [I1 _]. destruct (I1 e Hin) as (i & Hop & Himg).
+  exists i, (cp_name e), (cp_created e). split; [exact Hop|]. split; [rewrite <- Hk; exact Himg|].
+  pose proof (image_of_origin c ops i _ _ Hop) as Hi.
+  fold s in Hi. rewrite <- Himg, Nn in Hi. inversion Hi; subst img. cbn [st images].
+  unfold restore. cbn [s_kv s_rel s_cat]. split.
+  - intros key. apply reput_lookup.
   - intros ->. reflexivity.
 Qed.
 
